@@ -299,6 +299,16 @@ def cases(tier, rng):
                 if 0 <= p <= 115:
                     o, pc = divmod(p, 12)
                     out.append(Case("tab.note", [t, [["C", "C#", "D", "Eb", "E", "F", "F#", "G", "Ab", "A", "Bb", "B"][pc], o, 1, 64], w], tag="tab:note"))
+    # EVERY single-string tuning of the registry once (label columns differ: 'B,,' and "e''" are three characters wide)
+    for r in singles:
+        t = r[2]
+        opens = open_pitches(t)
+        for p in (opens[0], opens[-1] + 3, opens[len(opens) // 2] + 1):
+            if 0 <= p <= 115:
+                o, pc = divmod(p, 12)
+                nn = [["C", "C#", "D", "Eb", "E", "F", "F#", "G", "Ab", "A", "Bb", "B"][pc], o, 1, 64]
+                out.append(Case("tab.note", [t, nn, 60], tag="tab:note-every-tuning"))
+                out.append(Case("tab.bar", [t, ["C", 4, 4, [[4, [nn]], [4, None], [2, [nn]]]], 60], tag="tab:bar-every-tuning"))
     # entries that cannot be fingered, in every form of the argument: the error must be the finger error
     NAMES12 = ["C", "C#", "D", "Eb", "E", "F", "F#", "G", "Ab", "A", "Bb", "B"]
     def pn(p):
